@@ -475,8 +475,8 @@ package util
 // full frame (assigns + bodyassigns).
 //@ func (*MerklePatriciaTrie).insertNode(mpt, oldNode, newNode) returns (n, key, err)
 //@   trusted
-//@   props C04 C14
-//@   opt bodyfor C04 C14
+//@   props C04 C14 C02 C05
+//@   opt bodyfor C04 C14 C02 C05
 //@   mode wrap
 //@   holds mpt.mutex W
 //@   requires newNode != nil && Canon(newNode) && PathsWF(newNode)                          #canonical-node
@@ -490,6 +490,9 @@ package util
 //@   ensures err == nil && oldNode != nil && NodeHB(oldNode, heapof(OriginTracker.Origin)) != NodeHB(newNode, heapof(OriginTracker.Origin))
 //@      | ==> !(NodeHash(oldNode, heapof(OriginTracker.Origin)) in CCof(mpt).Changes)                                                                        #replaced-node-is-no-longer-pending
 //@   ensures CollectorWF(mpt)                                                                                                                                #collector-stays-wf
+// C02 / C05: every node the trie stores carries the version of this trie as its origin (the origin is
+// part of the node hash: a node re-created in a later round never collides with a dead older one).
+//@   ensures err == nil ==> OriginOf(newNode) == mpt.Version                                                                                                 #stored-node-carries-the-trie-version
 //@ func (*MerklePatriciaTrie).deleteNode(mpt, node) returns (err)
 //@   trusted
 //@   props C04 C05
@@ -529,9 +532,10 @@ package util
 //@   ensures HexPath(en.Path) ==> HexPath(r.(*ExtensionNode).Path)
 
 //@ func (*OriginTrackerNode).SetOrigin(otn, origin)
-//@   props C01
+//@   props C01 C02 C05
 //@   mode wrap
 //@   assigns otn.OriginTracker.(*OriginTracker).Origin, otn.OriginTracker.(*OriginTracker).Version
+//@   ensures otn.OriginTracker.(*OriginTracker).Origin == origin                               #origin-is-set
 
 // ================= state trie (C01 / C02): lookup, insert, delete =================
 
@@ -764,8 +768,13 @@ package util
 //@ func (Node).CloneNode returns (c)
 //@   assigns nothing
 //@   ensures c != nil && NodeHB(c, heapof(OriginTracker.Origin)) == NodeHB(self, heapof(OriginTracker.Origin)) && NodeHash(c, heapof(OriginTracker.Origin)) == NodeHash(self, heapof(OriginTracker.Origin))
-//@ func (Node).SetOrigin
+// OriginOf(n): the origin field of a node (every node kind embeds *OriginTrackerNode; typeinv: the
+// tracker behind it is a plain *OriginTracker). The interface-level clause is the clause checked on
+// (*OriginTrackerNode).SetOrigin, the one implementation all node kinds promote.
+//@ spec OriginOf(n Node) int = n is *LeafNode ? n.(*LeafNode).OriginTrackerNode.OriginTracker.(*OriginTracker).Origin : (n is *FullNode ? n.(*FullNode).OriginTrackerNode.OriginTracker.(*OriginTracker).Origin : (n is *ExtensionNode ? n.(*ExtensionNode).OriginTrackerNode.OriginTracker.(*OriginTracker).Origin : (n is *ValueNode ? n.(*ValueNode).OriginTrackerNode.OriginTracker.(*OriginTracker).Origin : 0)))
+//@ func (Node).SetOrigin(self, origin)
 //@   assigns heap(OriginTracker.Origin), heap(OriginTracker.Version)
+//@   ensures OriginOf(self) == origin                                                           #origin-is-set
 //@ func (Node).GetOrigin returns (o)
 //@   assigns nothing
 //@ func (Node).GetVersion returns (o)
